@@ -172,6 +172,62 @@ func reportBackgrounds() []struct {
 	}
 }
 
+// scoreSweep renders one vector for every attainable (level, score) pair, so that every score
+// value 0.0 … 10.0 that a level can take appears in a report score field at least once.
+func scoreSweep(r *ev.Run, langs []langCase, n *int64) {
+	bases, temps := allTok(3, 0), allTok(3, 1)
+	envs := v3EnvSuffixes()
+	seen := [3]map[int]bool{{}, {}, {}}
+	type pick struct {
+		ver string
+		tok map[string]string
+	}
+	var picks []pick
+	for vi, verLabel := range spec.V3Versions {
+		for bi, b := range bases {
+			for ti := 0; ti < len(temps); ti += 7 {
+				e := envs[(bi+ti+vi)%len(envs)]
+				tok := merge(merge(b, temps[ti]), e)
+				c := v3Case(verLabel, tok)
+				fresh := false
+				for lv := 0; lv < 3; lv++ {
+					if w := v3Want(&c, lv); !seen[lv][w] {
+						seen[lv][w] = true
+						fresh = true
+					}
+				}
+				if fresh {
+					picks = append(picks, pick{verLabel, tok})
+				}
+			}
+		}
+	}
+	for _, p := range picks {
+		s := canonicalWritten(3, 2, p.ver, p.tok)
+		em, err := v3.NewEnvironmental().Decode(s)
+		if err != nil || em == nil {
+			r.Violate(ev.Violation{Kind: "valid-vector-not-decoded", Case: map[string]any{"vector": s}, Observed: fmt.Sprint(err), Expected: "accepted"})
+			continue
+		}
+		for _, lc := range langs {
+			cs := map[string]any{"vector": s, "language": lc.name, "report": "NewEnvironmental"}
+			rep := report.NewEnvironmental(em, lc.opts...)
+			*n++
+			if rep == nil || rep.TemporalReport == nil || rep.TemporalReport.BaseReport == nil {
+				r.Violate(ev.Violation{Kind: "report-nil", Case: cs, Observed: "nil report or embedded report", Expected: "three nested reports"})
+				continue
+			}
+			compareReport(r, cs, 2, ownFields(reflect.ValueOf(rep).Elem()), expectedReport(2, p.ver, p.tok, lc.tag), lc.exact)
+			compareReport(r, cs, 1, ownFields(reflect.ValueOf(rep.TemporalReport).Elem()), expectedReport(1, p.ver, p.tok, lc.tag), lc.exact)
+			compareReport(r, cs, 0, ownFields(reflect.ValueOf(rep.TemporalReport.BaseReport).Elem()), expectedReport(0, p.ver, p.tok, lc.tag), lc.exact)
+		}
+	}
+	r.Set("score_sweep_vectors", int64(len(picks)))
+	for lv := 0; lv < 3; lv++ {
+		r.Set("score_sweep_distinct_"+spec.LevelNames[lv]+"_scores_rendered", int64(len(seen[lv])))
+	}
+}
+
 func init() {
 	register("C17", "exploration", func(r *ev.Run, thorough bool) {
 		_ = oracle.GetV3()
@@ -239,6 +295,7 @@ func init() {
 				}
 			})
 		}
+		r.Phase("score rendering sweep", func() { scoreSweep(r, langs[:3], &n) })
 		r.Add("evaluations", n)
 		r.Add("distinct_nontrivial", nv)
 		r.Set("vectors", nv)
@@ -246,7 +303,7 @@ func init() {
 		r.Sample(map[string]any{"vector": canonicalWritten(3, 2, "3.1", reportBackgrounds()[0].tok), "languages": "default, en, ja, und, fr (+ de, zh, en-US, ja-JP for every 8th vector)", "fields_compared": "every exported string field of EnvironmentalReport, TemporalReport, BaseReport"})
 		r.Set("exhaustive", false)
 		r.Set("deviation_bound", int64(dev))
-		r.Set("rule", "every v3 vector that differs from one of 4 background vectors in at most 2 (quick) / 3 (thorough) metrics, decoded by the real decoders, reports built in {default, en, ja, und, fr, de, zh} (+ en-US, ja-JP checked for non-emptiness only); every exported string field of the three report structs (enumerated by reflection; an uncovered field is an infrastructure error) compared with the title/value-name function of exactly the like-named metric, the canonical vector and version of its level, the decimal rendering of the exact oracle score and the band of that level's score; distinct by vector")
+		r.Set("rule", "every v3 vector that differs from one of 4 background vectors in at most 2 (quick) / 3 (thorough) metrics, decoded by the real decoders, reports built in {default, en, ja, und, fr, de, zh} (+ en-US, ja-JP checked for non-emptiness only); every exported string field of the three report structs (enumerated by reflection; an uncovered field is an infrastructure error) compared with the title/value-name function of exactly the like-named metric, the canonical vector and version of its level, the decimal rendering of the exact oracle score and the band of that level's score; plus a sweep that renders one vector for every attainable (level, score) pair; distinct by vector")
 		r.Assume("the names.* functions are the oracle for display names (their own correctness is C18)")
 	})
 }
